@@ -78,7 +78,7 @@ mod proofs {
         kani::cover!(true, "AFTER: incomplete protocol finished");
     }
 
-    // @harness id=C18 tier=quick unwind=10 timeout=3000 fs=4096 kf=bgv_collective_decrypt_scale_and_round
+    // @harness id=C18 tier=thorough unwind=20 timeout=3600 fs=4096 kf=bgv_collective_decrypt_scale_and_round
     // @desc final decoding of a collectively computed phase: in BFV phase = Delta*m + v decodes to m; in BGV phase = m + t*e (centered, any correction factor) decodes to m / factor mod t
     // @bounds N=2, q={97,113}, t=17; BFV: m < t, |v| <= 100 (< Delta/2 = 322); BGV: m < t, |e| <= 20, correction factor 1..16; coefficient-wise check of coefficient 0 with coefficient 1 arbitrary
     // @funcs multiparty::participant::decrypt_polynomial, RNSTool::decrypt_scale_and_round, RNSTool::decrypt_mod_t
